@@ -229,7 +229,9 @@ def build_argv(it, tmp):
                 cnt += 1
             m = " ".join((ws * 6)[:cnt])
         elif fv % 5 == 0:
-            m = mnemonic + " " * 0  # unchanged; trailing-space variants are refused by the word count rule
+            # the sentence as typed with capitals (caps lock, a capitalised first word): the seed is made from the text as given
+            ws = mnemonic.split(" ")
+            m = " ".join([ws[0].capitalize()] + ws[1:]) if fv % 10 else mnemonic.upper()
         sub = ["from-mnemonic"]
         pos = [m] if fault != "missing-positional" else []
         pwopt = opt("--password", [pw], sp[5] if pw and not pw.startswith("-") else 1, "--pass") if pw is not None else []
